@@ -47,6 +47,9 @@ func variants() []Variant {
 
 const rule = "state in which at least one feed holds a stored value; distinct by canonical hash of oracle+service+bank stores, header, tx counter and reference model"
 
+// Variants exposes the explorations for reuse by the cross-cutting checks (C11, C12).
+func Variants() []Variant { return variants() }
+
 // Parts of the C17 check.
 func Parts() []mc.Part {
 	var ps []mc.Part
